@@ -349,6 +349,9 @@ func c05ConfigEnum(thorough bool) mc.Enum {
 					if f.prover == "P1^x2" {
 						mp = 3
 					}
+					if f.prover == "P1@2^45" { // a tiny file with an astronomically large replication count
+						mp = 1 << 45
+					}
 					msg := storagetypes.NewMsgPostFile(u, files[i].merkle, f.size, 0, 0, mp, "{}")
 					if !f.plan {
 						msg.Expires = h + 20_000
@@ -377,7 +380,7 @@ func c05ConfigEnum(thorough bool) mc.Enum {
 						}
 						continue
 					}
-					for _, pv := range strings.Split(f.prover, "+") {
+					for _, pv := range strings.Split(strings.TrimSuffix(f.prover, "@2^45"), "+") {
 						item, hl := files[i].proofFor(0)
 						env.Deliver(storagetypes.NewMsgPostProof(w.A(pv).Bech, files[i].merkle, u, h, item, hl, 0))
 					}
@@ -397,8 +400,14 @@ func c05ConfigEnum(thorough bool) mc.Enum {
 			return
 		}
 		for _, sz := range c05CfgSizes {
-			for _, p := range []string{"P1", "P2", "P1+P2", "P1^x2"} {
+			for _, p := range []string{"P1", "P2", "P1+P2", "P1^x2", "P1@2^45"} {
 				for _, plan := range []bool{false, true} {
+					if p == "P1@2^45" { // size 1 only (the product must fit), pay-once
+						if sz == c05CfgSizes[0] && !plan {
+							rec(append(append([]fc{}, cur...), fc{1, p, false}))
+						}
+						continue
+					}
 					if p == "P1^x2" { // the capital-spelled prover re-proves, which needs the real 12 bytes: one size, pay-once
 						if sz == c05CfgSizes[0] && !plan {
 							rec(append(append([]fc{}, cur...), fc{12, p, false}))
